@@ -534,6 +534,25 @@ type c06Recorded struct {
 	counts string
 	after  string
 	desc   map[string]any
+	// a step made while the continuous session runs (or its start): the model applies the operations and then what
+	// a change-driven session transfers (C06_Corr.StS / VStS); fresh = the session has no checkpoint yet
+	sess, fresh, both bool
+}
+
+// the Coq term of a recorded step
+func (s c06Recorded) term(v4 bool, ndocs int) string {
+	pre := ""
+	if v4 {
+		pre = "V"
+	}
+	if !s.sess {
+		return fmt.Sprintf("%sSt %s %s %s", pre, cqList(s.ops), s.counts, s.after)
+	}
+	docs := make([]string, ndocs)
+	for i := range docs {
+		docs[i] = strconv.Itoa(i)
+	}
+	return fmt.Sprintf("%sStS %s %s %s %s %s", pre, cqList(s.ops), cqBool(s.fresh), cqBool(s.both), cqList(docs), s.after)
 }
 
 type c06Runner struct {
@@ -566,6 +585,13 @@ func (r *c06Runner) snapshot() (string, []map[string]any, bool) {
 		js = append(js, map[string]any{"doc": i, "A": []any{a.Rev, a.Deleted, a.Body}, "B": []any{b.Rev, b.Deleted, b.Body}})
 	}
 	return cqList(items), js, ok
+}
+
+// a step whose effect includes what the running continuous session transfers
+func (r *c06Runner) recordSess(step c06Step, ops []string, fresh bool) {
+	r.record(step, ops, "None")
+	last := &r.steps[len(r.steps)-1]
+	last.sess, last.fresh, last.both = true, fresh, r.e.sdir != "pull"
 }
 
 func (r *c06Runner) record(step c06Step, ops []string, counts string) {
@@ -656,9 +682,10 @@ func (r *c06Runner) do(s c06Step) bool {
 			if !e.waitQuiescent() {
 				return false
 			}
-			ops = append(ops, r.syncOps()...)
+			r.recordSess(s, ops, false)
+		} else {
+			r.record(s, ops, "None")
 		}
-		r.record(s, ops, "None")
 	case "pull":
 		st, ok := e.oneShot(db.ActiveReplicatorTypePull)
 		if !ok {
@@ -697,10 +724,11 @@ func (r *c06Runner) do(s c06Step) bool {
 				return false
 			}
 		}
+		fresh := e.sess == ""
 		if !e.sessionStart(s.Dir) || !e.waitQuiescent() {
 			return false
 		}
-		r.record(s, r.syncOps(), "None")
+		r.recordSess(s, nil, fresh)
 	case "stop":
 		if !e.sessionStop() {
 			return false
@@ -1091,7 +1119,7 @@ func c06RunScenario(t *testing.T, rec *vRecorder, stream string, sc c06Scenario,
 				var steps []string
 				var descSteps []any
 				for _, s := range r.steps {
-					steps = append(steps, fmt.Sprintf("VSt %s %s %s", cqList(s.ops), s.counts, s.after))
+					steps = append(steps, s.term(true, len(e.docs)))
 					descSteps = append(descSteps, s.desc)
 				}
 				rec.Case(stream, "vv-scenario", "CVV\n    "+cqList(steps), map[string]any{"scenario": sc.name, "protocol": c06Proto(true), "steps": descSteps}, nontrivial)
@@ -1135,7 +1163,7 @@ func c06RunScenario(t *testing.T, rec *vRecorder, stream string, sc c06Scenario,
 					var steps, fin []string
 					var descSteps []any
 					for _, s := range r.steps {
-						steps = append(steps, fmt.Sprintf("St %s %s %s", cqList(s.ops), s.counts, s.after))
+						steps = append(steps, s.term(false, len(e.docs)))
 						descSteps = append(descSteps, s.desc)
 					}
 					for i, f := range finals {
@@ -1473,13 +1501,12 @@ func c06RunLocalWinsRetry(t *testing.T, rec *vRecorder, rng *vRand, idx int) {
 	nInj := len(inj)
 	mu.Unlock()
 	desc += " between the update callback and the CAS write of the pull's write"
-	ops = append(ops, r.syncOps()...)
 	after, js, okS := r.snapshot()
 	if !okS {
 		rec.Err("infrastructure: lwretry unexpected body")
 		return
 	}
-	r.steps = append(r.steps, c06Recorded{ops: ops, counts: "None", after: after, desc: map[string]any{"step": desc, "after": js}})
+	r.steps = append(r.steps, c06Recorded{ops: ops, counts: "None", after: after, desc: map[string]any{"step": desc, "after": js}, sess: true, fresh: true, both: true})
 	r.descs = append(r.descs, desc)
 	// stop, and run the SAME replication again (its checkpoint is reused): whatever it dropped stays dropped
 	if !(do(c06Step{Kind: "stop"}) && do(c06Step{Kind: "start", Dir: "both"}) && do(c06Step{Kind: "stop"})) {
@@ -1528,7 +1555,7 @@ func c06RunLocalWinsRetry(t *testing.T, rec *vRecorder, rng *vRand, idx int) {
 	var steps []string
 	var descSteps []any
 	for _, s := range r.steps {
-		steps = append(steps, fmt.Sprintf("VSt %s %s %s", cqList(s.ops), s.counts, s.after))
+		steps = append(steps, s.term(true, len(e.docs)))
 		descSteps = append(descSteps, s.desc)
 	}
 	rec.Case("lwretry-vv", "vv-scenario", "CVV\n    "+cqList(steps), map[string]any{"scenario": fmt.Sprintf("lwretry-%d", idx), "protocol": c06Proto(true), "steps": descSteps}, nInj > 0)
